@@ -861,6 +861,11 @@ class Exec(object):
                     return self.exc(KeyError, st)
                 return self.branch(dict_has(h, i), st, lambda s: self.val(dict_get(s.heap[o.ref], i), s),
                                    lambda s: self.exc(KeyError, s))
+            if isinstance(h, HList) and h.items is not None and const_int(i.t) is not None:
+                k = const_int(i.t)
+                if -len(h.items) <= k < len(h.items):
+                    return self.val(h.items[k], st)
+                return self.exc(IndexError, st)
             if isinstance(h, HList):
                 if h.seq is None:
                     return self.exc(IndexError, st)
